@@ -37,7 +37,9 @@ CLAIMED = {
              'nothing; no KeyError. The model is tied to the code by replaying seeded histories through the real ESME/SimpleCorrelator (sending hook '
              'suspended between assignment and put) and comparing outcomes and final store with the model evaluated in Coq.',
         note='Trusted: Coq kernel, translator (maps/tuples/bounds), harness (fake transport, hook), asyncio cooperative scheduling (atomic between awaits). '
-             'Expiry is an arbitrary environment deletion here; its timing is C14. No axioms.',
+             'Expiry is an arbitrary environment deletion here; its timing is C14. Whole sessions with connection loss while requests are outstanding are checked by '
+             'an oracle on the numbers written on all connections (uniqueness among outstanding requests across reconnects is not a theorem). The bind response is '
+             'taken positionally by connect(), outside the correlator. No axioms.',
         technique='Coq invariant proofs by induction over event histories (occurrence-count invariant, ghost ids) + modular arithmetic; trace correspondence against the real ESME',
         design='6 (C13)'),
     'C17': dict(
@@ -48,7 +50,8 @@ CLAIMED = {
              'exactly; anything beyond 63 weeks is ValueError. Model tied to protocol.py by differential runs over boundary sweeps, random values '
              'and a malformed-string stream (exception class compared).',
         note='Trusted: Coq kernel + vm_compute sweeps, CPython datetime/strftime/int() semantics as modelled (sampled by the differential run), harness. '
-             'Proved for the code after fix e177386 (the pinned code failed the absolute part). No axioms.',
+             'FixedOffset.from_timezone (named by the property as a mechanism, not on the conversion path) is modelled and proved for every sign/hour/minute. '
+             'Proved for the code after fixes e177386 (the pinned code failed the absolute part) and 21e6c58 (from_timezone wrong for every negative offset). No axioms.',
         technique='Coq proof (digit printing/parsing lemmas by finite sweep, lia with Euclidean division); differential correspondence',
         design='6 (C17)'),
     'C20': dict(
@@ -84,10 +87,12 @@ CLAIMED = {
              'responses since the window restarted and the two-decimal percentage exceeds deny_request_at; restart rule), with the rounding effect '
              'bounded by 0.005. Tied to the code by running the real classes under a scripted clock (time.monotonic/asyncio.sleep replaced in '
              'their modules) and by driving the real ESME sender with a recording limiter/throttle handler (every submit_sm write has its own '
-             'allow then limit; nothing is written after a denial).',
+             'limiter pass and a last answer allow; nothing is written after a denial).',
         note='Trusted: Coq kernel (QArith, lra/nra), harness; binary64 rounding is not modelled (inputs are dyadic; histories with an exact rounding '
              'tie are skipped and counted); strictly increasing clock readings assumed (equal readings raise ZeroDivisionError in the code). The sender-level '
-             'statement is checked on traces of the real sender, not proved (session model pending). Proved for the code after fixes b4cec97, dd102c0. No axioms.',
+             'statement is checked on whole sessions (real limiter + real throttle handler on a virtual-time loop: wire-level rate bound, denial condition evaluated '
+             'at every submit_sm write) and on traces of the real sender, not proved. Proved for the code after fixes b4cec97, dd102c0, a0e77b7 (throttle handler '
+             'asked before the wait in the rate limiter). No axioms.',
         technique='Coq proof: potential/supply argument by induction over clock readings (Q, lra/nra), liveness by state-invariance of failed readings; scripted-clock correspondence',
         design='6 (C18)'),
     'C14': dict(
@@ -102,7 +107,9 @@ CLAIMED = {
         note='Trusted: Coq kernel, harness (scripted time.monotonic in correlator.py), asyncio cooperative scheduling. Part (d) of the design '
              '(a response arriving within the TTL always finds its request) is REFUTED for the session: known finding '
              'response-before-put-under-backpressure (reproduced on the real ESME with a paused transport; witness theorem in Props/C14.v). '
-             'Proved for the code after fix 6160d29 (the sweep no longer raises KeyError). No axioms.',
+             'The correlator\'s share of (d) is proved: put() stores the request in its first atomic piece, before its sweep can suspend in the hook '
+             '(C14_put_visible_at_once). Session scenarios: slow sending hook (TTL counts from the write), send_error hook suspended inside put(). '
+             'Proved for the code after fixes 6160d29 (the sweep no longer raises KeyError) and 83211c4 (put() swept before storing). No axioms.',
         technique='Coq invariant proof (ownership counting + sweep-coverage invariant) by induction over arbitrary event interleavings; trace correspondence with suspending hooks',
         design='6 (C14)'),
     'C09': dict(
@@ -129,8 +136,9 @@ CLAIMED = {
              'throttle counters and all four stores with the model evaluated in Coq.',
         note='Trusted: Coq kernel, translator, harness + smppref.py. The segmented theorem is proved for one message in isolation (its events in any '
              'order); mixes of concurrent messages are covered by the correspondence runs and the oracle, not by the theorem. Hypotheses: error codes '
-             'below 65532 (the internal status codes), distinct references among live segmented messages (8-bit reference reuse is a C01 finding), no '
-             'expiry during the history. Proved for the code after fix d1270d3 (status cell covers all segments from the first put). No axioms.',
+             'below 65532 (the internal status codes), distinct references among live segmented messages - KNOWN FINDING reference-reuse-while-receipts-pending shows the code fails without it (a message '
+             'accepted in full and waiting for receipts loses its status cell to a later message with the same 8-bit reference; reproduced on every run) -, no '
+             'expiry during the history. Receipt texts whose echoed text looks like receipt fields are generated. Proved for the code after fix d1270d3 (status cell covers all segments from the first put). No axioms.',
         technique='Coq proof: per-message phase invariant over dict lookups, one lemma per event kind, induction over admissible event lists; PDU-level trace correspondence',
         design='6 (C02)'),
     'C03': dict(
@@ -225,8 +233,10 @@ CLAIMED = {
              'order and bytes of sending/send_error hook calls with the model; an oracle checks start() and the Sender alive, one connection, '
              'wire = announced PDUs, outcomes in queue order, at most one send_error per message.',
         note='Trusted: Coq kernel, translator, harness. Outside the model: stdlib codecs and non-GSM codecs under non-strict error handlers (oracle only); '
-             'transport failures (they end the cycle by design: C07). Proved for the code after fixes 77053b5, e3719d2 (build errors other than '
-             'ValueError ended the session), eac4e7b (segmentation errors escaped the guarded region). No axioms.',
+             'transport failures (they end the cycle by design: C07). The generator also names Python codecs that are not text codecs, datetimes with every '
+             'kind of tzinfo, and queues a message in the window between the loss of a connection and the end of the idle sender. Proved for the code after '
+             'fixes 77053b5, e3719d2 (build errors other than ValueError ended the session), eac4e7b (segmentation errors escaped the guarded region), '
+             'a118bb8 (TypeError from a non-text codec ended the session). No axioms.',
         technique='Coq proof: exception-class closure of the encoder and splitters by structural error-set lemmas, induction over the queue; trace correspondence of the real session on a virtual-time loop',
         design='6 (C06)'),
     'C07': dict(
@@ -280,8 +290,9 @@ CLAIMED = {
         design='6 (C15)'),
     'C01': dict(
         text='Coq theorems (Props/C01.v) over the executable model of response handling, per-segment status, cumulated status and expiry '
-             '(Model/Handlers.v, Model/Correlator.v): for ONE segmented message of ANY number k>=2 of segments and ANY admissible interleaving of '
-             'its events (each segment stored after its write in the order sent, then accepted / rejected with any status / generic_nack / timed out) '
+             '(Model/Handlers.v, Model/Correlator.v): for ANY NUMBER of segmented messages in flight at once (distinct references and sequence numbers; theorem C01_concurrent_messages by '
+             'footprint/frame lemmas over the one-message invariant), each of ANY number k>=2 of segments, and ANY admissible interleaving of '
+             'their events (each segment stored after its write in the order sent, then accepted / rejected with any status / generic_nack / timed out) '
              'the hooks see NO outcome while a segment is unprocessed and EXACTLY ONE once all are, carrying the message\'s log; it is the accepting '
              'submit_sm_resp iff every segment was accepted, otherwise a failure (send_error, or a nack / error-status response) - by a phase invariant '
              'over the correlator dictionaries with one lemma per event kind; the hook calls equal the specification event by event; a message that '
@@ -290,8 +301,10 @@ CLAIMED = {
              'references and comparing hook calls and all stores with the model; whole sessions on a virtual-time loop (real sender, SMSC '
              'accepting/rejecting/nacking/ignoring segments, suspending hooks, connection loss, reference wrap, unbuildable messages) are checked '
              'by an oracle: exactly one outcome per queued message, with its own log_id/extra_data and the right polarity.',
-        note='Trusted: Coq kernel, translator, harness. The theorem is for one message in isolation with distinct references among unfinished '
-             'messages; concurrent mixes, connection loss and the sender side (C06) are covered by the correspondence runs and the session oracle. '
+        note='Trusted: Coq kernel, translator, harness. Hypothesis of the theorems: distinct 8-bit references among the segmented messages in flight - '
+             'KNOWN FINDING reference-collision-256-in-flight shows the code fails without it (257 reference-taking messages queued at once: the first '
+             'segmented message gets three outcomes, the last none; reproduced on every run). Plain messages mixed in, connection loss and the sender '
+             'side (C06) are covered by the correspondence runs and the session oracle. '
              'Eventual delivery of the time-out relies on correlator traffic driving the sweep (keep-alive). Outside: the C14 known finding '
              '(response before put under write back-pressure: the message is then reported as timed out - still exactly one outcome). Proved for the '
              'code after fixes 66de80c, d1270d3, 8306826, 93e2bc6, 057982f, 900ad9f. No axioms.',
